@@ -60,7 +60,13 @@ def run_vars(tape, env, viol, history, want_c10=False):
     hm = HashMap()
     ns = {"license": "GPL", "minimumPacketSize": 20, "hm": hm}
     decl = []
-    for i in range(1 + tape.draw("c09/nvars", 6)):
+    nvars = 1 + tape.draw("c09/nvars", 6)
+    if want_c10 and tape.chance("c10/many-variables", 3):
+        # more variables than a one-byte key can tell apart: whatever the library does
+        # about it (today: it cannot load such a map), the buffers must be large enough
+        nvars = 250 + tape.draw("c10/nvars-many", 60)
+        env.world.count("c10/hash-map-with-250-to-310-variables")
+    for i in range(nvars):
         fmt = tape.pick("c09/fmt", FMTS)
         if tape.chance("c09/prefixed", 12 if not want_c10 else 35):
             fmt = tape.pick("c09/prefix", PREFIXES) + fmt
@@ -254,7 +260,7 @@ def run_dict(tape, env, viol, history, want_c10=False):
     if want_c10 and tape.chance("fault/kernel-without-lookup-and-delete", 25):
         # a kernel older than 5.14: BPF_MAP_LOOKUP_AND_DELETE_ELEM on a hash map is EINVAL;
         # whatever the library does about it, its buffers have to be large enough
-        kernel.refused_commands = {21}
+        kernel.refused_commands = {21: tape.pick("fault/refusal-errno", [22, 524, 95])}
         env.world.count("fault/old-kernel")
 
     def gen_struct(name, label):
@@ -263,7 +269,11 @@ def run_dict(tape, env, viol, history, want_c10=False):
         ns = {f"m{i}": Member(f) for i, f in enumerate(fmts)}
         return type(name, (Structure,), ns), fmts
     Key, kf = gen_struct("Key", "c09/key")
-    Value, vf = gen_struct("Value", "c09/value")
+    if tape.chance("c09/value-is-key-class", 12):
+        Value, vf = Key, kf          # one Structure class used for both
+        env.world.count("c09/dict-with-one-class-for-key-and-value")
+    else:
+        Value, vf = gen_struct("Value", "c09/value")
     size = 1 + tape.draw("c09/size", 4)
     amap = ArrayMap()
     from ebpfcat.ebpf import LocalVar
